@@ -46,6 +46,7 @@ enum {
     F_POP_FRONT_N_PARTIAL,
     F_POP_FRONT_N_HUGE,
     F_HUGE_LIST,
+    F_GIANT_ERASE,
     F_SLICED_SWAP,
     F_SORT_TIES,
     F_COPY_REALLOC,
@@ -1670,6 +1671,63 @@ static bool run_huge_array_case(uint64_t case_idx) {
     return true;
 }
 
+/* one case per -O2 stage run: a byte list of 2^31+64 elements, erase near the front (really moves 2 GiB) */
+static bool run_giant_erase_case(void) {
+    struct mon_rng *r = &mon_case_rng;
+    size_t n = ((size_t)1 << 31) + 64 + (size_t)mon_below(r, 64);
+    s_op = "giant-erase";
+    mon_fp(0x61A7);
+    memset(s_hblk, 0, sizeof(s_hblk));
+    s_hacq = s_hrel = 0;
+    struct aws_array_list l;
+    if (aws_array_list_init_dynamic(&l, &s_huge_alloc, n, 1)) {
+        mon_count("giant_erase_skipped_no_address_space", 1);
+        return false;
+    }
+    static const size_t MARK_AT[] = {0, 1, 2, 3, 4, 5, 6, 1000, 65536, ((size_t)1 << 30) + 7, ((size_t)1 << 31) - 1, (size_t)1 << 31, ((size_t)1 << 31) + 9};
+    enum { NM = sizeof(MARK_AT) / sizeof(MARK_AT[0]) };
+    uint8_t last = 0xEE, v;
+    if (aws_array_list_set_at(&l, &last, n - 1)) {
+        mon_violation("C09:huge:growth-refused", "set_at(%zu) on a %zu-byte list failed", n - 1, n);
+        aws_array_list_clean_up(&l);
+        return true;
+    }
+    for (size_t i = 0; i < NM; ++i) {
+        v = (uint8_t)(0x10 + i);
+        aws_array_list_set_at(&l, &v, MARK_AT[i]);
+    }
+    size_t idx = 1 + (size_t)mon_below(r, 5); /* 1..5 */
+    if (aws_array_list_erase(&l, idx)) {
+        mon_violation("C09:giant:erase-failed", "erase(%zu) on a list of %zu one-byte elements failed (error %d)", idx, n, aws_last_error());
+    } else {
+        if (aws_array_list_length(&l) != n - 1) {
+            mon_violation("C09:giant:length", "after erase(%zu) of %zu elements the length is %zu", idx, n, aws_array_list_length(&l));
+        }
+        for (size_t i = 0; i < NM; ++i) {
+            if (MARK_AT[i] == idx) {
+                continue;
+            }
+            size_t now_at = MARK_AT[i] > idx ? MARK_AT[i] - 1 : MARK_AT[i];
+            uint8_t got = 0;
+            aws_array_list_get_at(&l, &got, now_at);
+            if (got != (uint8_t)(0x10 + i)) {
+                mon_violation("C09:giant:contents", "after erase(%zu) on %zu one-byte elements: the element that was at index %zu is not at index %zu (found %02x, expected %02x)", idx,
+                              n, MARK_AT[i], now_at, got, (unsigned)(0x10 + i));
+                break;
+            }
+        }
+        uint8_t b = 0;
+        aws_array_list_back(&l, &b);
+        if (b != last) {
+            mon_violation("C09:giant:contents", "after erase(%zu) on %zu one-byte elements back() is %02x, the last element was %02x", idx, n, b, last);
+        }
+    }
+    aws_array_list_clean_up(&l);
+    mon_flag(F_GIANT_ERASE);
+    mon_count("giant_erase_on_list_of_2GiB", 1);
+    return true;
+}
+
 int main(int argc, char **argv) {
     mon_init(argc, argv, "C09");
     aws_common_library_init(aws_default_allocator());
@@ -1687,6 +1745,7 @@ int main(int argc, char **argv) {
         {F_POP_FRONT_N_PARTIAL, "pop_front_n_partial"},
         {F_POP_FRONT_N_HUGE, "pop_front_n_huge_count"},
         {F_HUGE_LIST, "dynamic_list_storage_4GiB_or_more"},
+        {F_GIANT_ERASE, "erase_near_front_of_2GiB_byte_list"},
         {F_SLICED_SWAP, "sliced_swap_item_gt_128"},
         {F_SORT_TIES, "sort_with_ties"},
         {F_COPY_REALLOC, "copy_into_smaller_dynamic"},
@@ -1740,7 +1799,11 @@ int main(int argc, char **argv) {
 #else
         bool huge = !linked && c % 128 == 127;
 #endif
-        bool nontrivial = linked ? run_linked_case(c) : (huge ? run_huge_array_case(c) : run_array_case(c));
+        bool giant = false;
+#ifndef DEBUG_BUILD
+        giant = !linked && c == 511; /* once per -O2 stage run */
+#endif
+        bool nontrivial = linked ? run_linked_case(c) : giant ? run_giant_erase_case() : (huge ? run_huge_array_case(c) : run_array_case(c));
         mon_case_end(nontrivial);
     }
     if (!linked) {
